@@ -30,16 +30,14 @@ fn owner_of(w: &World, f: u8, line: usize) -> Option<usize> {
 }
 
 /// Cursor on the `def` line (and, for a multi-line signature, the parameter line) of chain link `k`.
-pub fn chain_cursor(order: &[u8], chain: &[u8], k: usize, multiline: bool) {
+pub fn chain_cursor(order: &[u8], chain: &[u8], k: usize, multiline: bool, cols: [u32; 3]) {
     let w = chain_world(order, chain, if multiline { Some(k) } else { None });
     assume(w.layout_ok());
     let db = build(&w, WITH_USAGES);
     let sel: u8 = any();
     // `def f(f): return 1`: 0 'd', 3 ' ', 4 name, 5 '(', 6 parameter, 7 ')', 12 inside `return`, 40 beyond the line
-    match sel { 0 => chain_cursor_at(&w, &db, chain, k, multiline, 0), 1 => chain_cursor_at(&w, &db, chain, k, multiline, 3),
-                2 => chain_cursor_at(&w, &db, chain, k, multiline, 4), 3 => chain_cursor_at(&w, &db, chain, k, multiline, 5),
-                4 => chain_cursor_at(&w, &db, chain, k, multiline, 6), 5 => chain_cursor_at(&w, &db, chain, k, multiline, 7),
-                6 => chain_cursor_at(&w, &db, chain, k, multiline, 12), _ => chain_cursor_at(&w, &db, chain, k, multiline, 40) }
+    match sel { 0 => chain_cursor_at(&w, &db, chain, k, multiline, cols[0]), 1 => chain_cursor_at(&w, &db, chain, k, multiline, cols[1]),
+                _ => chain_cursor_at(&w, &db, chain, k, multiline, cols[2]) }
     reach!("c02.cursor.end");
     std::mem::forget(db); std::mem::forget(w);
 }
@@ -137,34 +135,63 @@ macro_rules! c02_arm {
         #[cfg_attr(kani, kani::stub(crate::fixtures::FixtureDatabase::is_fixture_imported_in_file, crate::world::stub_is_imported))]
         #[cfg_attr(kani, kani::stub(core::unicode::unicode_data::alphabetic::lookup, crate::stubs::uni_alphabetic))]
         #[cfg_attr(kani, kani::stub(core::unicode::unicode_data::n::lookup, crate::stubs::uni_numeric))]
+        #[cfg_attr(kani, kani::stub(core::slice::memchr::memchr, crate::stubs::memchr_bytewise))]
         pub fn $id() { $body }
     };
 }
 
-/// @harness id=c02_cur_near_over_root props=C02 unwind=26 mem=8 cap=900 gates=worlds
-/// chain C1:`def f(f)` over C0:`def f()`; cursor on C1's def line: 8 columns (each token boundary, inside name, inside parameter, elsewhere, beyond the line).
-c02_arm!(c02_cur_near_over_root, chain_cursor(&[C0, C1, U], &[C1, C0], 0, false));
-/// @harness id=c02_cur_same_over_near_over_root props=C02 unwind=26 mem=8 cap=900 gates=worlds
-/// chain U over C1 over C0 (registered outermost first); cursor on U's def line.
-c02_arm!(c02_cur_same_over_near_over_root, chain_cursor(&[C0, C1, U], &[U, C1, C0], 0, false));
-/// @harness id=c02_cur_middle_link props=C02 unwind=26 mem=8 cap=900 gates=worlds
-/// chain U over C1 over C0 (registered innermost first); cursor on the middle link C1.
-c02_arm!(c02_cur_middle_link, chain_cursor(&[U, C1, C0], &[U, C1, C0], 1, false));
-/// @harness id=c02_cur_root_over_plugin props=C02 unwind=26 mem=8 cap=900 gates=worlds
-/// chain C0 over plugin P over third-party V; cursor on C0's def line.
-c02_arm!(c02_cur_root_over_plugin, chain_cursor(&[V, P, C0, U], &[C0, P, V], 0, false));
-/// @harness id=c02_cur_plugin_over_third props=C02 unwind=26 mem=8 cap=900 gates=worlds
-/// chain P over V; cursor on the plugin's def line.
-c02_arm!(c02_cur_plugin_over_third, chain_cursor(&[V, P, U], &[P, V], 0, false));
-/// @harness id=c02_cur_outermost props=C02 unwind=26 mem=8 cap=900 gates=worlds
-/// chain C1 over C0; cursor on the outermost link (no parameter): name => itself, elsewhere nothing.
-c02_arm!(c02_cur_outermost, chain_cursor(&[C1, C0, U], &[C1, C0], 1, false));
-/// @harness id=c02_cur_multiline props=C02 unwind=26 mem=8 cap=900 gates=worlds
-/// chain C1 over C0 with C1's parameter on the line after `def f(`: cursor on both lines.
-c02_arm!(c02_cur_multiline, chain_cursor(&[C0, C1, U], &[C1, C0], 0, true));
-/// @harness id=c02_refs_three_links props=C02,C04 unwind=26 mem=10 cap=1200 gates=worlds
+/// @harness id=c02_cur_near_over_root props=C02 unwind=30 mem=8 cap=900 gates=worlds
+/// chain C1:`def f(f)` over C0:`def f()`; cursor on C1's def line: columns 4 (function name), 6 (parameter), 12 (elsewhere) — symbolic selector, 3 call sites.
+c02_arm!(c02_cur_near_over_root, chain_cursor(&[C0, C1, U], &[C1, C0], 0, false, [4, 6, 12]));
+/// @harness id=c02_cur_near_over_root_edges props=C02 tier=thorough unwind=30 mem=10 cap=1500 gates=worlds
+/// chain C1:`def f(f)` over C0:`def f()`; cursor on C1's def line: columns 5 '(' , 7 ')' and 3 (the space before the name).
+c02_arm!(c02_cur_near_over_root_edges, chain_cursor(&[C0, C1, U], &[C1, C0], 0, false, [5, 7, 3]));
+
+/// @harness id=c02_cur_same_over_near_over_root props=C02 unwind=30 mem=8 cap=900 gates=worlds
+/// chain U over C1 over C0 (registered outermost first); cursor on U's def line: columns 4 (function name), 6 (parameter), 12 (elsewhere) — symbolic selector, 3 call sites.
+c02_arm!(c02_cur_same_over_near_over_root, chain_cursor(&[C0, C1, U], &[U, C1, C0], 0, false, [4, 6, 12]));
+/// @harness id=c02_cur_same_over_near_over_root_edges props=C02 tier=thorough unwind=30 mem=10 cap=1500 gates=worlds
+/// chain U over C1 over C0 (registered outermost first); cursor on U's def line: columns 5 '(' , 7 ')' and 3 (the space before the name).
+c02_arm!(c02_cur_same_over_near_over_root_edges, chain_cursor(&[C0, C1, U], &[U, C1, C0], 0, false, [5, 7, 3]));
+
+/// @harness id=c02_cur_middle_link props=C02 unwind=30 mem=8 cap=900 gates=worlds
+/// chain U over C1 over C0 (registered innermost first); cursor on the middle link C1: columns 4 (function name), 6 (parameter), 12 (elsewhere) — symbolic selector, 3 call sites.
+c02_arm!(c02_cur_middle_link, chain_cursor(&[U, C1, C0], &[U, C1, C0], 1, false, [4, 6, 12]));
+/// @harness id=c02_cur_middle_link_edges props=C02 tier=thorough unwind=30 mem=10 cap=1500 gates=worlds
+/// chain U over C1 over C0 (registered innermost first); cursor on the middle link C1: columns 5 '(' , 7 ')' and 3 (the space before the name).
+c02_arm!(c02_cur_middle_link_edges, chain_cursor(&[U, C1, C0], &[U, C1, C0], 1, false, [5, 7, 3]));
+
+/// @harness id=c02_cur_root_over_plugin props=C02 unwind=30 mem=8 cap=900 gates=worlds
+/// chain C0 over plugin P over third-party V; cursor on C0's def line: columns 4 (function name), 6 (parameter), 12 (elsewhere) — symbolic selector, 3 call sites.
+c02_arm!(c02_cur_root_over_plugin, chain_cursor(&[V, P, C0, U], &[C0, P, V], 0, false, [4, 6, 12]));
+/// @harness id=c02_cur_root_over_plugin_edges props=C02 tier=thorough unwind=30 mem=10 cap=1500 gates=worlds
+/// chain C0 over plugin P over third-party V; cursor on C0's def line: columns 5 '(' , 7 ')' and 3 (the space before the name).
+c02_arm!(c02_cur_root_over_plugin_edges, chain_cursor(&[V, P, C0, U], &[C0, P, V], 0, false, [5, 7, 3]));
+
+/// @harness id=c02_cur_plugin_over_third props=C02 unwind=30 mem=8 cap=900 gates=worlds
+/// chain P over V; cursor on the plugin's def line: columns 4 (function name), 6 (parameter), 12 (elsewhere) — symbolic selector, 3 call sites.
+c02_arm!(c02_cur_plugin_over_third, chain_cursor(&[V, P, U], &[P, V], 0, false, [4, 6, 12]));
+/// @harness id=c02_cur_plugin_over_third_edges props=C02 tier=thorough unwind=30 mem=10 cap=1500 gates=worlds
+/// chain P over V; cursor on the plugin's def line: columns 5 '(' , 7 ')' and 3 (the space before the name).
+c02_arm!(c02_cur_plugin_over_third_edges, chain_cursor(&[V, P, U], &[P, V], 0, false, [5, 7, 3]));
+
+/// @harness id=c02_cur_outermost props=C02 unwind=30 mem=8 cap=900 gates=worlds
+/// chain C1 over C0; cursor on the outermost link (no parameter): name => itself, elsewhere nothing: columns 4 (function name), 6 (parameter), 12 (elsewhere) — symbolic selector, 3 call sites.
+c02_arm!(c02_cur_outermost, chain_cursor(&[C1, C0, U], &[C1, C0], 1, false, [4, 6, 12]));
+/// @harness id=c02_cur_outermost_edges props=C02 tier=thorough unwind=30 mem=10 cap=1500 gates=worlds
+/// chain C1 over C0; cursor on the outermost link (no parameter): name => itself, elsewhere nothing: columns 5 '(' , 7 ')' and 3 (the space before the name).
+c02_arm!(c02_cur_outermost_edges, chain_cursor(&[C1, C0, U], &[C1, C0], 1, false, [5, 7, 3]));
+
+/// @harness id=c02_cur_multiline props=C02 unwind=30 mem=8 cap=900 gates=worlds
+/// chain C1 over C0 with C1's parameter on the line after `def f(`: cursor on both lines: columns 4 (function name), 6 (parameter), 12 (elsewhere) — symbolic selector, 3 call sites.
+c02_arm!(c02_cur_multiline, chain_cursor(&[C0, C1, U], &[C1, C0], 0, true, [4, 6, 12]));
+/// @harness id=c02_cur_multiline_edges props=C02 tier=thorough unwind=30 mem=10 cap=1500 gates=worlds
+/// chain C1 over C0 with C1's parameter on the line after `def f(`: cursor on both lines: columns 5 '(' , 7 ')' and 3 (the space before the name).
+c02_arm!(c02_cur_multiline_edges, chain_cursor(&[C0, C1, U], &[C1, C0], 0, true, [5, 7, 3]));
+
+/// @harness id=c02_refs_three_links props=C02,C04 unwind=30 mem=10 cap=1200 gates=worlds
 /// chain U over C1 over C0, tests in U and in T2 (sibling directory): references of each link, test binding.
 c02_arm!(c02_refs_three_links, chain_refs(&[C0, C1, U, T2], &[U, C1, C0]));
-/// @harness id=c02_refs_near_over_third props=C02,C04 unwind=26 mem=10 cap=1200 gates=worlds
+/// @harness id=c02_refs_near_over_third props=C02,C04 unwind=30 mem=10 cap=1200 gates=worlds
 /// chain C1 over V, tests in U and T2: T2's test binds to V.
 c02_arm!(c02_refs_near_over_third, chain_refs(&[V, C1, U, T2], &[C1, V]));
